@@ -16,6 +16,21 @@ Specification: spec/Symbols.tla
     up to depth 4, same-named symbols on several levels, qualifiers PARENT0..4 / names / [], exports to every ancestor,
     temporary symbols up to the sight of 3 and one beyond, macro-local labels, PUSHV/POPV, with and without -U) are
     rendered in two dialects (z80 little endian `dw`, 68000 big endian `dc.w`) and assembled by the real asl.
+    Argument lists (Symbols_Gen modes pplistq / pplistt, added after a seeded change to CodePPSyms() went unnoticed:
+    the default destination "global" was set once before the argument loop instead of per argument, so that in
+    `PUBLIC alpha:PARENT, beta` beta inherited alpha's destination - every generated FORWARD/PUBLIC/GLOBAL statement
+    had named ONE symbol): a statement with several arguments is a run of elements, all but the first with
+    cont |-> TRUE; each argument has its own destination (Symbols.tla, header and DoPP).  Generated: every kind x
+    every list of 1..2 (thorough 1..3) arguments x every combination of per-argument destinations (none, PARENTn,
+    section name; thorough also PARENT0/PARENT3/second name) x the second argument being another symbol or the first
+    one again in another spelling, inside a nest of 3 (thorough 3 and 4, the innermost repeating the outermost name)
+    sections, without / with same-named symbols further out, followed by the definitions and by probe references
+    from every level (plain names, for GLOBAL the composed names): one text with all probes the manual resolves and
+    one text per name with the innermost probe the manual calls undefined ("not visible further out").  The
+    simulated texts extend a FORWARD/PUBLIC/GLOBAL statement by further arguments as well (category PPC), the
+    renderer joins the elements into one source line, Symbols_Trace steps through the elements of a line, and
+    Symbols_MC (focus scope2) has the list that names its symbol again.  The seeded change now yields ~45 VIOLATIONs
+    in the quick tier (unexpected "symbol undefined"; thorough also missing double-definition errors).
     Expected values and expected errors are TLC's (Expect); Python renders, reads the code file and compares.
     Verdict-bearing: error-or-not, every word the manual is definite about.  Not verdict-bearing (SPEC-DRIFT only):
     words the manual calls pass-dependent (compared with the machine's prediction), result of a forced extra pass.
@@ -41,7 +56,7 @@ The machine keeps the three deviations switchable (field devs), so the model of 
 
 Binding shown by mutation (patches: selftest/C13-m*.diff): each mutant below was applied to a scratch copy of /repo, built, run through the
 repository's 201 ctest tests (result in brackets) and through `VERIF_REPO=<copy> ./check C13 --tier quick`.
-All but the last were reported as VIOLATION (exit 1):
+All but the last were reported as VIOLATION (exit 1; the CodePPSyms one only since the argument lists exist):
   asmpars.c FindNode: innermost section not searched            [128 tests fail]  unexpected "symbol undefined"
   asmpars.c FindNode: parent level skipped from depth 2 on       [3 fail]    unexpected "symbol undefined"
   asmpars.c FindNode: no upper-casing of the looked-up name      [116 fail]  unexpected "symbol undefined"
@@ -62,6 +77,7 @@ All but the last were reported as VIOLATION (exit 1):
   asmpars.c PopSymbol: second element instead of the top         [201 pass]  LIFO witness: word 4112 instead of 4128
   asmallg.c CodePUSHV: stack name not upper-cased                [201 pass]  unexpected "stack is empty"
   asmallg.c CodeENDSECTION: outermost section never left         [7 fail]    unexpected "symbol undefined"
+  asmallg.c CodePPSyms: default destination hoisted out of loop  [201 pass]  unexpected "symbol undefined" (lists)
   asmpars.c FindLocNode: enclosing expansions not searched       [201 pass]  NOT reported as violation: the manual does
       not say that a nested expansion sees the labels of the expansion around it, so such references are "not
       definite" (compared with the machine as SPEC-DRIFT only).
@@ -584,7 +600,9 @@ def main(tier):
     validate_corpus(rep, bld)
     return rep.finish(
         rule="programs = every text up to 3 (thorough 4) statements over the alphabet of each focus area (TLC BFS, "
-             "every prefix) + TLC-simulated texts of 20-40 statements (section depth <= 4, two spellings per name, "
+             "every prefix) + every FORWARD/PUBLIC/GLOBAL argument list up to 2 (thorough 3) arguments with every "
+             "combination of per-argument destinations in a nest of 3-4 sections, probed from every level + "
+             "TLC-simulated texts of 20-40 statements (section depth <= 4, two spellings per name, "
              "with and without -U), each rendered for z80 and 68000; distinct = distinct rendered source; "
              "non-trivial = contains a reference, a temporary reference or PUSHV/POPV", exhaustive=False)
 
